@@ -131,6 +131,9 @@ def run_path(I, c, fn, module, res):
             raise PathEnd()
         res.pre_ok += 1
         old = I.calls.snapshot_frame(I, fr)
+        # postconditions speak about the parameters' entry references (a local rebinding of a
+        # parameter name inside the body is invisible to the contract)
+        pf = Frame(dict(fr.env), None, func=sf)
         I.old_frame_entry = old
         I.old_frame = old
         is_gen = any(isinstance(n, (ast.Yield, ast.YieldFrom)) for n in ast.walk(fn))
@@ -142,7 +145,7 @@ def run_path(I, c, fn, module, res):
                 I.old_frame = old
                 try:
                     for i, e in enumerate(c.each_yield):
-                        g = I.as_goal(I.pure_eval(e, fr, {'value': v}))
+                        g = I.as_goal(I.pure_eval(e, pf, {'value': v}))
                         ctx.oblige(I.oname('yield', node.lineno, i), g, 'yield', node.lineno)
                 finally:
                     I.old_frame = prev
@@ -167,8 +170,19 @@ def run_path(I, c, fn, module, res):
             res.normal_exits += 1
             result = outcome[1]
             for i, e in enumerate(c.ensures):
-                g = I.as_goal(I.pure_eval(e, fr, {'result': result}))
+                g = I.as_goal(I.pure_eval(e, pf, {'result': result}))
                 ctx.oblige(I.oname('post', None, i), g, 'post')
+            if c.result_expr is not None:
+                want = I.pure_eval(c.result_expr, pf)
+                ctx.oblige(I.oname('post-result', None), I.as_goal(I.equal(result, want)), 'post')
+            for k, e in c.sets.items():
+                slf = pf.env.get('self')
+                if k not in slf.attrs:
+                    ctx.oblige(I.oname('sets[%s]' % k, None), z3.BoolVal(False), 'post')
+                    continue
+                want = I.pure_eval(e, old)
+                g = I.as_goal(I.equal(slf.attrs[k], want))
+                ctx.oblige(I.oname('sets[%s]' % k, None), g, 'post')
             for cls, cond in c.raises.items():
                 g = I.as_goal(I.pure_eval(cond, old))
                 ctx.oblige(I.oname('raises-iff[%s]' % cls, None), z3.Not(g), 'raises')
